@@ -50,14 +50,25 @@ const (
 	ProfOSFile = "os.File"
 	// the payload reader the library itself hands out: carv2.NewReader(x).DataReader()
 	ProfDataReader = "Reader.DataReader"
+	// the same over a bytes.Reader the caller has already read from (version sniffing): carv2.NewReader
+	// uses ReadAt only, which neither depends on nor moves the Read position
+	ProfDataReaderSniffed = "Reader.DataReader/sniffed"
 )
+
+func isDataReaderProf(p string) bool { return p == ProfDataReader || p == ProfDataReaderSniffed }
 
 // openSource returns the reader for a profile, the simulated core (nil for the
 // two real kinds), a function giving the highest offset consumed, and a cleanup.
 func openSource(data []byte, profile string, del sim.Delivery) (io.Reader, *sim.SrcCore, func() int64, func()) {
 	switch profile {
-	case ProfDataReader:
-		rd, err := carv2.NewReader(bytes.NewReader(data))
+	case ProfDataReader, ProfDataReaderSniffed:
+		under := bytes.NewReader(data)
+		if profile == ProfDataReaderSniffed {
+			if _, err := carv2.ReadVersion(under); err != nil {
+				panic(&InfraError{"DataReader source: " + err.Error()})
+			}
+		}
+		rd, err := carv2.NewReader(under)
 		if err != nil {
 			panic(&InfraError{"DataReader source: " + err.Error()})
 		}
@@ -92,8 +103,8 @@ func runC14One(l *Layout, choices string, profile string, del sim.Delivery, opts
 	defer done()
 	var br *carv2.BlockReader
 	var err error
-	loc := fmt.Sprintf("v%d/%s", map[bool]int{false: 1, true: 2}[l.Spec.V2], map[bool]string{false: "stream", true: "seekable"}[sim.IsSeekable(profile) || profile == ProfBytes || profile == ProfOSFile || profile == ProfDataReader])
-	if profile == ProfDataReader {
+	loc := fmt.Sprintf("v%d/%s", map[bool]int{false: 1, true: 2}[l.Spec.V2], map[bool]string{false: "stream", true: "seekable"}[sim.IsSeekable(profile) || profile == ProfBytes || profile == ProfOSFile || isDataReaderProf(profile)])
+	if isDataReaderProf(profile) {
 		if l.Spec.V2 {
 			return nil // the DataReader of a CARv2 is the bare payload: a different archive; covered for CARv1
 		}
@@ -118,6 +129,11 @@ func runC14One(l *Layout, choices string, profile string, del sim.Delivery, opts
 		data []byte
 	}
 	var held []heldBlk // blocks the caller keeps while it goes on iterating
+	type heldMeta struct {
+		i  int
+		md *carv2.BlockMetadata
+	}
+	var heldMd []heldMeta // likewise the metadata SkipNext handed out
 	choice := func(i int) byte {
 		if i < len(choices) {
 			return choices[i]
@@ -151,6 +167,7 @@ func runC14One(l *Layout, choices string, profile string, del sim.Delivery, opts
 				if verr != nil || ln != uint64(s.CidLen+s.DataLen) {
 					v = viol("medium/wrong-metadata/skipnext@"+loc, "bytes at SourceOffset %d are not the section's length prefix", md.SourceOffset)
 				}
+				heldMd = append(heldMd, heldMeta{i, md})
 				return
 			}
 			blk, err := br.Next()
@@ -182,6 +199,12 @@ func runC14One(l *Layout, choices string, profile string, del sim.Delivery, opts
 	for _, hb := range held {
 		if !bytes.Equal(hb.data, secs[hb.i].Data) {
 			return viol("medium/wrong-block/held-result@"+loc, "the bytes of block #%d returned by Next changed while the iteration went on (choices %q)", hb.i, choices)
+		}
+	}
+	for _, hm := range heldMd {
+		s, md := secs[hm.i], hm.md
+		if !md.Cid.Equals(s.Cid) || md.Offset != uint64(s.Off) || md.SourceOffset != uint64(l.DataOffset+s.Off) || md.Size != uint64(s.DataLen) {
+			return viol("medium/wrong-metadata/held-result@"+loc, "the metadata SkipNext returned for block #%d changed while the iteration went on: now {cid %s off %d src %d size %d} (choices %q)", hm.i, md.Cid, md.Offset, md.SourceOffset, md.Size, choices)
 		}
 	}
 	if l.Spec.V2 {
@@ -228,9 +251,9 @@ func RunC14(t *Trace, st *Stats) *Violation {
 	}
 	var first *Violation
 	seen := map[string]bool{}
-	for _, prof := range append(append([]string{}, readerProfiles...), ProfBytes, ProfOSFile, ProfDataReader) {
+	for _, prof := range append(append([]string{}, readerProfiles...), ProfBytes, ProfOSFile, ProfDataReader, ProfDataReaderSniffed) {
 		dels := []sim.Delivery{{ErrAt: -1}, GenDelivery(r), {Chunks: []int{1}, ErrAt: -1, EOFWithData: true}}
-		if prof == ProfBytes || prof == ProfOSFile || prof == ProfDataReader {
+		if prof == ProfBytes || prof == ProfOSFile || isDataReaderProf(prof) {
 			dels = dels[:1] // real readers deliver as they please
 		}
 		for di, del := range dels {
